@@ -86,7 +86,7 @@ func realmFeature(r string) string {
 }
 
 func urlFeature(u string) string {
-	rest := strings.TrimPrefix(strings.TrimPrefix(u, "rtsps://"), "rtsp://")
+	rest := strings.TrimPrefix(strings.TrimPrefix(strings.TrimPrefix(u, "raw:"), "rtsps://"), "rtsp://")
 	authority, path, _ := strings.Cut(rest, "/")
 	switch {
 	case strings.Contains(authority, "@"):
